@@ -1,7 +1,7 @@
 (* Properties_C06.v -- C06: success means the exact, complete result
    Only theorem statements, each closed by [exact <lemma>], with Print Assumptions beneath. *)
 From Coq Require Import List ZArith Lia Bool.
-From SC Require Import Base Wp Cfg Comb CombProofs CopySpec ModStr ModMem ModExt ProofsStr ProofsMem SpecStr SpecMem SpecExt SpecExt2 PropStr FnProps PropDefs.
+From SC Require Import Base Wp Cfg Comb CombProofs CopySpec ModStr ModMem ModExt ProofsStr ProofsMem SpecStr SpecMem SpecExt SpecExt2 ModExt2 SpecExt3 PropStr FnProps PropDefs.
 From SC.Gen Require Import Consts.
 Import ListNotations.
 Local Open Scope Z_scope.
@@ -85,6 +85,31 @@ Theorem C06_strnset_s : forall c d dmax value n m, d <> 0 -> 1 <= dmax <= rmax_s
 Proof. exact strnset_s_spec. Qed.
 Print Assumptions C06_strnset_s.
 
+(* strljustify_s / strremovews_s on a terminated string of L >= 1 characters with K leading (and T trailing) blanks: the exact
+   result, and nothing outside dest[0 .. L) changes (the scans bounded only by the data never run out of fuel) *)
+Theorem C06_strljustify_s : forall c d dmax m L K, wf_mem m -> d <> 0 -> 2 <= dmax <= rmax_str c ->
+  (1 <= L)%nat -> Z.of_nat L <= dmax -> cstr m d L -> blanks m d K ->
+  wp (strljustify_s c d dmax BOS_UNKNOWN) m (fun r m' =>
+     r = EOK /\ (K = O -> m' = m) /\ ((1 <= K)%nat -> ljust_post m d L K m') /\
+     (forall x, ~ (d <= x < d + Z.of_nat L) -> m' x = m x)).
+Proof. exact strljustify_s_spec. Qed.
+Print Assumptions C06_strljustify_s.
+Theorem C06_strremovews_s : forall c d dmax m L K T, wf_mem m -> d <> 0 -> 2 <= dmax <= rmax_str c ->
+  (1 <= L)%nat -> Z.of_nat L <= dmax -> cstr m d L -> blanks m d K ->
+  ((K = L /\ T = O) \/ ((K + T < L)%nat /\ (forall j, 0 <= j < Z.of_nat T -> is_ws (m (d + Z.of_nat L - 1 - j)) = true) /\
+                        is_ws (m (d + Z.of_nat L - 1 - Z.of_nat T)) = false)) ->
+  wp (strremovews_s c d dmax BOS_UNKNOWN) m (fun r m' => r = EOK /\ removews_post m d L K T m').
+Proof. exact strremovews_s_spec. Qed.
+Print Assumptions C06_strremovews_s.
+(* in particular the bytes in front of dest are never touched, even for a string of blanks only (the repaired defect) *)
+Theorem C06_strremovews_s_frame : forall m d L K T m', removews_post m d L K T m' -> forall x, ~ (d <= x < d + Z.of_nat L) -> m' x = m x.
+Proof. exact removews_post_frame. Qed.
+Print Assumptions C06_strremovews_s_frame.
+Example C06_strremovews_example :
+  let m := fun a => if a =? 1000 then 32 else if a =? 1001 then 97 else if a =? 1002 then 32 else if a =? 1003 then 98 else if a =? 1004 then 9 else if a =? 999 then 32 else 0 in
+  let '(r, m', _) := exec (strremovews_s cfg_default 1000 8 BOS_UNKNOWN) m in
+  r = EOK /\ map m' [999; 1000; 1001; 1002; 1003; 1004; 1005] = [32; 97; 32; 98; 0; 0; 0].
+Proof. vm_compute. split; reflexivity. Qed.
 Theorem C06_cfg_repo_wf : wf_cfg cfg_repo.
 Proof. exact wf_cfg_repo. Qed.
 Print Assumptions C06_cfg_repo_wf.
